@@ -437,6 +437,7 @@ func missingTexts(ctx *refsym.Context, v *model.Value) []string {
 
 func runC05(c *Ctx) {
 	n := c.N(3000, 200000)
+	looks := LookalikeStreams()
 	c.Parallel(n, func(w, i int) {
 		cs := c.Seed*5_000_111 + int64(i)
 		r := rand.New(rand.NewSource(cs))
@@ -456,7 +457,12 @@ func runC05(c *Ctx) {
 		} else {
 			g := gen.New(cs)
 			g.NoUnknownSyms = r.Intn(3) != 0
-			rk := ReadCase{CaseSeed: cs, Binary: binary, P: 0.25, Vals: g.Stream()}
+			vals := g.Stream()
+			if i/6 < len(looks)*6 {
+				// values that resemble symbol tables and version markers without being any
+				vals = looks[i/6%len(looks)]
+			}
+			rk := ReadCase{CaseSeed: cs, Binary: binary, P: 0.25, Vals: vals}
 			data, _, _, err := rk.render()
 			if err != nil {
 				return
